@@ -91,6 +91,8 @@ def main():
                 dims = kw.get("_dims", 2)
                 cases.append(dict(sampler=sampler, name=name, members=[name], kwargs=kw, run_kwargs=rkw, dims=dims, seed=int(rng_for(chk.seed, "C20", sampler, name, sd).integers(1, 2**31 - 1)),
                                   outdir=os.path.join(chk.scratch, f"{sampler}-{name}-{sd}"), watchdog=150, _timeout=240))
+                if sampler == "ins" and "max_iteration" in kw and kw["max_iteration"] is None:
+                    cases[-1].update(watchdog=600, _timeout=700)    # uncapped: decided by the 30-iteration budget, which needs more wall time on a loaded machine
     if not chk.quick:
         # covering-array style rows: random compatible pairs/triples so that every pair of option cases of a sampler appears with high probability
         for sampler, nrows in (("std", 420), ("ins", 180)):
@@ -188,7 +190,7 @@ def main():
             chk.violation(f"C20:{c['sampler']}:{culprit}:{key}", f"{c['sampler']} option case {c['name']} kwargs={c['kwargs']} run_kwargs={c['run_kwargs']}: {detail}", small)
     chk.extra["verdict_table"] = dict(sorted(table.items())) if chk.quick else {k: v for k, v in sorted(table.items()) if v != "held"}
     chk.extra["budgets"] = "per run: latent batches per population 1500 (nominal <= 100), INS draw batches per draw 500 (nominal 1-2), standard iterations 80 x nlive (nominal 5-8 x nlive), " \
-                           "INS iterations 60 (nominal 3-10; most runs carry a 40-iteration cap, three run uncapped), likelihood points 4e5 (nominal 1.5e3); wall-clock watchdog 150 s (nominal 2-6 s)"
+                           "INS iterations 60 (nominal 3-10; most runs carry a 40-iteration cap), 30 for the runs without a cap (nominal 3-4; wall-clock watchdog 600 s), likelihood points 4e5 (nominal 1.5e3); wall-clock watchdog 150 s (nominal 2-6 s)"
     chk.assumptions += ["'rejected up front' = a configuration-type exception raised while zero sampler-attributed likelihood points had been evaluated",
                         "bounded progress replaces 'never loops forever': a budget overrun is a violation, a watchdog without overrun is inconclusive"]
     chk.finish("every option value of the standard (130) and importance (64) option tables on its own (thorough: 2 seeds, plus ~600 random compatible pair/triple rows on 2- and "
